@@ -245,9 +245,13 @@ class KeyEval:
             return
         f = self.ctx.func('utils.get_filtered_dict')
         ifs = [n for n in own_nodes(f.node) if isinstance(n, ast.If)]
-        want = '(whitelisted_keys and key in whitelisted_keys) or (blocklisted_keys and key not in blocklisted_keys)'
+        lp = [l for l in own_nodes(f.node) if isinstance(l, ast.For) and norm(l.iter) == f'{f.params[0]}.items()' and isinstance(l.target, ast.Tuple)]
+        kv = norm(lp[0].target.elts[0]) if len(lp) == 1 else 'key'
+        vv = norm(lp[0].target.elts[1]) if len(lp) == 1 else 'value'
+        rn = (q.returned_names(f) or ['filtered_dict'])[0]
+        want = f'(whitelisted_keys and {kv} in whitelisted_keys) or (blocklisted_keys and {kv} not in blocklisted_keys)'
         ok = len(ifs) == 1 and q.equivalent(ifs[0].test, want) \
-            and any(isinstance(s, ast.Assign) and norm(s.targets[0]) == 'filtered_dict[key]' for s in ifs[0].body)
+            and any(isinstance(s, ast.Assign) and norm(s.targets[0]) == f'{rn}[{kv}]' and norm(s.value) == vv for s in ifs[0].body)
         self.ctx.ob(f, 'get_filtered_dict keeps key iff (whitelist and key in whitelist) or (blocklist and key not in blocklist)', ok,
                     f'filter semantics changed: {norm(ifs[0].test) if ifs else "?"}', rule='C15.t')
         KeyEval._gfd_checked = (self.ctx, ok)
@@ -593,7 +597,8 @@ def validate_first(ctx):
                'an argument outside the allow-list must be rejected before any request is made')
     v = ctx.func('manager.TransferManager._validate_all_known_args')
     raises = [n for n in own_nodes(v.node) if isinstance(n, ast.Raise)]
-    ok = bool(raises) and all(q.guards_imply(q.guards(r), 'kwarg not in allowed') and isinstance(q.in_loop(r), ast.For) for r in raises)
+    ok = bool(raises) and all(isinstance(q.in_loop(r), ast.For) and norm(q.in_loop(r).iter) == v.params[1]
+                              and q.guards_imply(q.guards(r), f'{norm(q.in_loop(r).target)} not in {v.params[2]}') for r in raises)
     ctx.ob(v, 'raise ValueError for every key not in allowed', ok, 'the validator must reject unknown keys')
 
 
@@ -607,20 +612,22 @@ def checksum_rules(ctx):
     f = ctx.func('upload.UploadSubmissionTask._submit_multipart_request')
     g = ctx.cfg(f)
     stores = [n for n in own_nodes(f.node) if isinstance(n, ast.Assign) and isinstance(n.targets[0], ast.Subscript)
-              and norm(n.targets[0].value).endswith('call_args.extra_args') and isinstance(n.targets[0].slice, ast.Constant)]
+              and q.is_call_args_attr(f, n.targets[0].value) and isinstance(n.targets[0].slice, ast.Constant)]
     by = {n.targets[0].slice.value: n for n in stores}
     t = by.get('ChecksumType')
     a = by.get('ChecksumAlgorithm')
     ok = t is not None and isinstance(t.value, ast.Constant) and t.value.value == 'FULL_OBJECT'
     ctx.ob(f, "extra_args['ChecksumType'] = 'FULL_OBJECT'", ok, 'a full-object checksum must make the upload a FULL_OBJECT-type multipart upload')
-    ok = a is not None and isinstance(a.value, ast.Call) and norm(a.value) in ("checksum.replace('Checksum', '')",)
+    lv = norm(q.in_loop(a).target) if a is not None and isinstance(q.in_loop(a), ast.For) else 'checksum'
+    ok = a is not None and isinstance(a.value, ast.Call) and norm(a.value) in (f"{lv}.replace('Checksum', '')",)
     ctx.ob(f, "extra_args['ChecksumAlgorithm'] = checksum.replace('Checksum', '')", ok, f'the algorithm must be derived from the checksum argument name, found {norm(a.value) if a is not None else None}')
     for n in (t, a):
         if n is None:
             continue
         loop = q.in_loop(n)
         gs = q.guards(n)
-        okl = isinstance(loop, ast.For) and norm(loop.iter) == 'FULL_OBJECT_CHECKSUM_ARGS' and q.guards_imply(gs, f'{norm(loop.target)} in call_args.extra_args') and len(gs) == 1
+        okl = isinstance(loop, ast.For) and norm(loop.iter) == 'FULL_OBJECT_CHECKSUM_ARGS' and len(gs) == 1 and gs[0][1] and isinstance(gs[0][0], ast.Compare) \
+            and isinstance(gs[0][0].ops[0], ast.In) and norm(gs[0][0].left) == norm(loop.target) and q.is_call_args_attr(f, gs[0][0].comparators[0])
         ctx.ob(f, f'{short(n, 50)} for each supplied full-object checksum', okl, f'must run exactly when one of FULL_OBJECT_CHECKSUM_ARGS is supplied (guards={q.guard_texts(n)})')
     builders = [n for c in own_calls(f.node) if (dotted(c.func) or '').endswith(('_extra_create_multipart_args', '_extra_complete_multipart_args', '_extra_upload_part_args')) for n in g.nodes_of(c)]
     sn = [x for n in (t, a) if n is not None for x in g.nodes_of(n)]
